@@ -222,6 +222,16 @@ func (x *c13) dispatch(consts map[string]string) {
 	}
 	found := map[string][]hit{}
 	var loose []string
+	callsParser := map[string]bool{}
+	for _, b := range fs.Blocks {
+		for _, instr := range b.Instrs {
+			if c2, ok := instr.(ssa.CallInstruction); ok {
+				if F, ok := parsers[c2.Common().StaticCallee()]; ok {
+					callsParser[F] = true
+				}
+			}
+		}
+	}
 	for _, b := range fs.Blocks {
 		for _, instr := range b.Instrs {
 			call, ok := instr.(*ssa.Call)
@@ -285,6 +295,10 @@ func (x *c13) dispatch(consts map[string]string) {
 			r.Undecided(c13R2, cons, p.Rel(fs.Pos()), "the constant does not resolve")
 		case len(hs) == 0 && len(loose) > 0:
 			r.Undecided(c13R2, cons, p.Rel(fs.Pos()), "no match guarding this parser was recognised; "+strings.Join(loose, "; "))
+		case len(hs) == 0 && callsParser[F]:
+			// the parser IS called, under a guard that is not a regexp match this
+			// recogniser reads (a hand-written matcher, a table of layouts)
+			r.Undecided(c13R2, cons, p.Rel(fs.Pos()), fmt.Sprintf("FromString calls FromFormat%s under a guard that is not a regexp match on the format's constant", F))
 		case len(hs) == 0:
 			r.Fail(c13R2, cons, p.Rel(fs.Pos()), fmt.Sprintf("FromString never dispatches to FromFormat%s: strings of format %s are rejected", F, F))
 		default:
